@@ -30,6 +30,7 @@ def run(ctx):
         if not s:
             ctx.fail("driver printed no summary")
         total += s["evaluations"]
+        ctx.cov["table_rows"] = ctx.cov.get("table_rows", 0) + len(rows)
         distinct += s["distinct"]
         for o in out:
             if o.get("violation"):
